@@ -70,12 +70,42 @@ PROPS = {
                  'per-record plumbing: decided under C02 (xls rk_num/parse_number with a symbolic format table) and C03 (xlsb)'],
         assumptions=['stated restriction of the grammar reference: the first date-like token of the first section decides the class'],
     ),
+    'C17': dict(
+        level_text='Bounded model checking of the region-geometry kernels: the xls MergeCells record decoder (count, order and corner mapping for 0..=3 symbolic Ref8 entries, earlier regions preserved) and the table data window Range::range(start,end) wherever the window lies relative to the used range (shared with C05). Attribution to sheets, xlsx mergeCell/ref parsing and the header/totals-row arithmetic are XML/zip-bound and outside.',
+        hosts={'src/xls.rs': ['c17_xls.rs'], 'src/lib.rs': ['c05_lib.rs']},
+        select=[r'^c17_', r'^c05_[qt]_range_'],
+        functions=['xls::parse_merge_cells', 'Range::range'],
+        bounds={'MergeCells': '0..=3 Ref8 entries, every field symbolic (rows/cols any u16)', 'table window': 'source <= 3x3, windows up to 5x4, placements listed under C05'},
+        outside=['xlsx mergeCell ref parsing (get_dimension: not admitted, see C01)', 'attribution of regions/tables to sheets, table discovery, header/totals row arithmetic (inline in zip/XML code)'],
+        assumptions=['record length >= 2 + 8*count (shorter records: hostile input, C06)'],
+    ),
+    'C13': dict(
+        level_text='Bounded model checking of the layout-independence kernels of the compound-file reader: Sectors::get_chain returns the logical stream (truncated to its length) for every placement of a 1..=2 (3 thorough) sector chain among 4 sectors and every FAT content consistent with it; Cfb::get_stream picks the mini-stream exactly below 4096 bytes and reports unknown names; Header::from_reader decodes every field at its MS-CFB offset.',
+        hosts={'src/cfb.rs': ['c13_cfb.rs']},
+        functions=['cfb::Sectors::get_chain', 'cfb::Sectors::get', 'cfb::Cfb::get_stream', 'cfb::Cfb::has_directory', 'cfb::Header::from_reader'],
+        bounds={'chain': '4 sectors of 8 bytes (stated concretisation of the sector size); placements: 6 representative permutations quick, 20 thorough (chain length 1..=4); sector contents, unused FAT entries and len symbolic',
+                'cutoff': 'directory len in 1..=8192, one-sector chains', 'header': 'v3 (512-byte sectors), bytes 24..78 symbolic'},
+        outside=['Cfb::new on whole containers (DIFAT/FAT loading loops over 512-byte sectors)', 'Directory::from_slice (encoding_rs UTF-16 decoding)', 'multi-megabyte streams, DIFAT chains', 'v4 header path in quick'],
+        assumptions=['the FAT describes a cycle-free chain (cyclic/dangling chains: hostile input, C06)'],
+    ),
+    'C18': dict(
+        level_text='Bounded model checking of the real MS-OVBA decompressor against the token layout of MS-OVBA 2.4.1: literal-only chunks of 1..=9 (16 thorough) symbolic bytes across flag-byte groups, two-chunk containers including a first chunk that ends on a full flag group, and copy tokens with concrete (offset,length) after symbolic literals (overlapping copies included).',
+        hosts={'src/cfb.rs': ['c18_cfb.rs']},
+        functions=['cfb::decompress_stream'],
+        bounds={'chunks': '1 or 2 compressed chunks', 'tokens': '<= 16 literal tokens per chunk, <= 1 copy token with (offset,len) in {(1,3),(2,5),(3,3),(1,9)}', 'literal bytes': 'symbolic'},
+        outside=['symbolic copy tokens (62 GB OOM, DESIGN 3)', 'raw (uncompressed) 4096-byte chunks', 'dir-stream walk in vba.rs (encoding_rs / byteorder readers): not admitted yet', 'module offsets, code pages'],
+        assumptions=['chunks shorter than 4096 bytes before the last one (the decoder does not check the MS-OVBA 4096 rule)'],
+    ),
 }
 
 # (regex on harness name, overrides). First match wins after defaults.
 RULES = [
     (r'_twin(_\w+)?$', dict(expect='fail', weight=0)),
     (r'^c10_', dict(arena=64)),
+    (r'^c18_', dict(arena=64)),
+    (r'^c13_[qt]_(chain|cutoff|stream|twin)', dict(arena=64)),
+    (r'^c13_[qt]_header', dict(arena=512)),
+    (r'^c13_q_cutoff', dict(min_covers=2)),
     (r'^c10_q_grammar', dict(min_covers=2)),
     (r'^c02_t_rk_', dict(timeout=1800, weight=9)),
     (r'^c14_[qt]_push_column', dict(arena=64, mem_gb=14.0, timeout=1200, weight=9)),
